@@ -2777,9 +2777,6 @@ func (dsc *dataStoreCommand) intersectWithLimitWorker(limit int, keyNames ...str
 	}
 
 	d = newRedisDict()
-	if len(sets) < 2 {
-		return
-	}
 
 	s1 := sets[0]
 	for iter := s1.createIterator(); iter.next(); {
